@@ -171,6 +171,16 @@ theorem rust_layout_is_model_layout :
      | _, _ => none)
     = some (modelLayout.map (·.2), 72) := by decide
 
+/-- the members of the Rust record and header, in declaration order, are the documented fields in
+    the documented order (same-size members must not trade places: offsets alone would not notice) -/
+theorem rust_record_field_order :
+    (RustFfi.structs.lookup "ClockErrorBound").map (fun fs => fs.map (·.1)) =
+      some ["as_of", "void_after", "bound_nsec", "max_drift_ppb", "reserved1", "clock_status"] := by decide
+
+theorem rust_header_field_order :
+    (RustFfi.structs.lookup "ShmHeader").map (fun fs => fs.map (·.1)) =
+      some ["magic", "segsize", "version", "generation"] := by decide
+
 theorem rust_status_agrees :
     RustFfi.enums.lookup "ClockStatus" = some [("Unknown", Status.unknown.code),
       ("Synchronized", Status.synchronized.code), ("FreeRunning", Status.freeRunning.code)] := by decide
